@@ -115,6 +115,9 @@ type condWaiter struct{ signalled bool }
 func NewCond(l Locker) *Cond { return &Cond{L: l} }
 
 func (c *Cond) Wait() {
+	// a scheduling point before the waiter is enqueued: between the caller's last check and the
+	// enqueue another goroutine may run (and signal into the void)
+	Yield("cond-wait-enter")
 	w := &condWaiter{}
 	c.waiters = append(c.waiters, w)
 	// release the lock without a scheduling point in between: enqueue+unlock is atomic in sync.Cond
